@@ -485,12 +485,20 @@ impl PrunePack {
         Self::from_index_pack(p, true)
     }
 
+    /// The size to record in the index entry of this pack.
+    ///
+    /// Normally the pack size is computed from the blobs of the pack. For packs without blobs (unreferenced
+    /// packs which have been marked for deletion) this is not possible, so the size must be kept in the entry.
+    fn index_size(&self) -> Option<u32> {
+        self.blobs.is_empty().then_some(self.size)
+    }
+
     /// Convert the `PrunePack` into an `IndexPack`. Set time of not already set.
     fn into_index_pack(self, time: Timestamp) -> IndexPack {
         IndexPack {
             id: self.id,
             time: self.time.or(Some(time)),
-            size: None,
+            size: self.index_size(),
             blobs: self.blobs,
         }
     }
@@ -504,7 +512,7 @@ impl PrunePack {
         IndexPack {
             id: self.id,
             time: Some(time),
-            size: None,
+            size: self.index_size(),
             blobs: self.blobs,
         }
     }
